@@ -44,3 +44,4 @@ def rules(ctx):
     S.tree_root_update_rules(ctx)
     S.survey2_rules(ctx)
     S.oldest_search_rules(ctx)
+    S.snapshot_atomic_rules(ctx)
